@@ -110,6 +110,8 @@ func runC18(c *Ctx) {
 			if g, ok := ins.(*ssa.Go); ok {
 				if mc, ok := g.Call.Value.(*ssa.MakeClosure); ok {
 					worker, _ = mc.Fn.(*ssa.Function)
+				} else if f := g.Call.StaticCallee(); f != nil && p.InRepo(f) {
+					worker = f // go cq.run()
 				}
 			}
 		}
@@ -180,7 +182,12 @@ func runC18(c *Ctx) {
 	}
 
 	// R2: list discipline
-	for _, f := range Closures(start) {
+	seenFn := map[*ssa.Function]bool{}
+	for _, f := range append(Closures(start), Closures(worker)...) {
+		if seenFn[f] {
+			continue
+		}
+		seenFn[f] = true
 		for _, ci := range callsOf(f) {
 			call, ok := ci.(*ssa.Call)
 			if !ok {
